@@ -158,6 +158,8 @@ class Emit:
             return self.block(x)
         if k == "tuple":
             return "(" + ", ".join(self.e(y) for y in x[1]) + ")"
+        if k == "repeat":
+            return "(List.replicate %s %s)" % (self.atom(x[2]), self.atom(x[1]))
         if k == "array":
             return "[" + ", ".join(self.e(y) for y in x[1]) + "]"
         if k == "macro":
@@ -270,6 +272,8 @@ class Emit:
         def walk(x):
             if x[0] == "assign" and self.lhs_name(x[1]) is not None:
                 add(self.lhs_name(x[1]))
+            elif x[0] == "assign" and x[1][0] == "index" and self.lhs_name(x[1][1]) is not None:
+                add(self.lhs_name(x[1][1]))
             elif x[0] == "mcall" and (x[2] in ("push", "pop", "push_back", "pop_front") or x[2] in self.cfg.get("mutmethods", {})) \
                     and self.lhs_name(x[1]) is not None:
                 add(self.lhs_name(x[1]))
@@ -312,6 +316,9 @@ class Emit:
             return tailstr()
         if x[0] == "assign" and self.lhs_name(x[1]) is not None:
             return "let %s := %s;\n    %s" % (self.lhs_name(x[1]), self.e(x[2]), tailstr())
+        if x[0] == "assign" and x[1][0] == "index" and self.lhs_name(x[1][1]) is not None:      # `v[i] = e`
+            v = self.lhs_name(x[1][1])
+            return "let %s := (List.set %s %s %s);\n    %s" % (v, v, self.atom(x[1][2]), self.atom(x[2]), tailstr())
         if x[0] == "mcall" and self.lhs_name(x[1]) is not None and x[2] in ("push", "push_back") and len(x[3]) == 1:
             v = self.lhs_name(x[1])
             return "let %s := (%s ++ [%s]);\n    %s" % (v, v, self.e(x[3][0]), tailstr())
@@ -325,6 +332,16 @@ class Emit:
             v = self.lhs_name(x[1])
             args = [v] + [self.atom(a) for a in x[3]]
             return "let %s := (%s);\n    %s" % (v, self.cfg["mutmethods"][x[2]].format(*args), tailstr())
+        if x[0] == "for" and x[1][0] == "ptuple" and len(x[1][1]) == 2 and x[2][0] == "mcall" and x[2][2] == "enumerate" \
+                and x[2][1][0] == "mcall" and x[2][1][2] == "iter":
+            # `for (idx, item) in v.iter().enumerate()`: a fold over the list paired with its indices
+            body = self.as_stmts(x[3])
+            w = self.assigned(body)
+            if not w:
+                return tailstr()
+            t = self.tup(w)
+            return "let %s := (List.foldl (fun %s (%s, %s) => (%s)) %s (List.zipIdx %s));\n    %s" % (
+                t, t, self.pat(x[1][1][1]), self.pat(x[1][1][0]), self.imp(body, t), t, self.atom(x[2][1][1]), tailstr())
         if x[0] == "for":
             if x[1][0] != "pvar" or x[2][0] != "range":
                 raise Unsupported("for loop that is not `for i in a..b`")
@@ -426,6 +443,11 @@ KERNELS = [
          method={"len": "List.length {0}", "min": "Nat.min {0} {1}", "reduce_add": "Feature.lsum {0}", "sqrt": "sqrt {0}",
                  "iter": "{0}", "take": "List.take {1} {0}", "fold": "List.foldl {2} {1} {0}", "mul": "Feature.blockMul {0} {1}"},
          mutmethods={"sub_assign": "Feature.blockSub {0} {1}", "mul_assign": "Feature.blockMul {0} {1}"}),
+    dict(group="Feat", name="from_vec", file="track/utils.rs", impl=r"impl FromVec<&Vec<f32>, Feature> for Feature \{", fn="from_vec",
+         sig="(lanes : Nat) (vec : List α) : List (List α)", imperative=True,
+         path={"FEATURE_LANES_SIZE": "lanes"},
+         method={"len": "List.length {0}"},
+         call={"Feature::with_capacity": "[]", "usize::from": "(if {0} then 1 else 0)", "f32x8::new": "{0}"}),
     # ---- the Sutherland-Hodgman loops (C08): imperative body, state-passing translation
     dict(group="Clip", name="sutherland_hodgman_clip", file="utils/clipping.rs", impl=None, fn="sutherland_hodgman_clip",
          sig="(subject_polygon clipping_polygon : List (Pt α)) : List (Pt α)", imperative=True,
